@@ -962,8 +962,9 @@ func runGrpcFlow(c *core.Ctx) {
 					if e != v {
 						continue
 					}
-					for _, l := range edgeLits(ph.Block().Preds[i], ph.Block()) {
-						if dependsOnValue(l.V, dec, map[ssa.Value]bool{}, 0) {
+					// the tests on the edge into the merge and those that dominate the edge's source block
+					for _, l := range append(edgeLits(ph.Block().Preds[i], ph.Block()), dominatingLits(ph.Block().Preds[i])...) {
+						if dependsOnValue(l.V, v, map[ssa.Value]bool{}, 0) || dependsOnValue(l.V, dec, map[ssa.Value]bool{}, 0) {
 							if bin, isBin := l.V.(*ssa.BinOp); isBin && (sx.IsNil(bin.X) || sx.IsNil(bin.Y)) {
 								continue // a nil test of the decoded error is fine
 							}
